@@ -134,7 +134,7 @@ PROPS = {
         "scale": {"quick": 1, "thorough": 30},
         "floors": {
             "quick": {"orders_checked": 5000, "dtrees": 3000, "dtree_nodes": 20000, "vtrees_from_dtree": 3000, "managers": 400,
-                      "lca_pairs": 50000, "shapes_enumerated": 65, "large_vtrees": 10, "library_constructed_vtrees": 300, "managers_over_label_sets_with_gaps": 200, "order_inputs_with_an_empty_clause": 300, "force_on_the_clause_free_formula": 1},
+                      "lca_pairs": 50000, "shapes_enumerated": 65, "large_vtrees": 10, "library_constructed_vtrees": 300, "managers_over_label_sets_with_gaps": 200, "order_inputs_with_an_empty_clause": 150, "force_on_the_clause_free_formula": 1},
             "thorough": {"dtrees": 100000},
         },
         "rule": "One evaluation = one derived object inspected structurally and compared with its definition recomputed from the CNF: (orders) linear, min-fill, FORCE, explicit and new_last-extended orders are permutations of 0..n with get/var_at_level mutually inverse, in_order_iter/lt/lte consistent; (dtrees) for each CNF and elimination order (every permutation for <= 4 variables; linear/min-fill/FORCE/random up to 12) the leaves are exactly the CNF's clauses, vars(node) = vars(l) | vars(r), internal cutsets = (vars(l)&vars(r)) minus ancestor cutsets and leaf cutsets = clause variables minus ancestor cutsets; (vtree from dtree) every CNF variable exactly once; (vtree manager) for every tree shape on <= 6 leaves (random labelling) and random shapes up to 12 leaves: var_index = in-order index, vtree(idx) structurally equal to the in-order node, lca for ALL node pairs against a range-based reference, prime/sub relation against left/right position (indices, variables, pointers), num_vars = number of leaves on dense label sets (S12). CNFs include unit and duplicate clauses, tautological clauses, disconnected components and unused variable indices. Every case is non-trivial; distinct = distinct inputs.",
